@@ -5,7 +5,9 @@ are wrapped on the class; after every one of them returns the monitor evaluates 
 invariants on the live object and compares it with a freshly constructed Domain.  Transform
 outputs are compared with the dense reference matrices of refmodel (independent of scipy).
 """
+import copy
 import math
+import pickle
 
 import numpy as np
 
@@ -168,6 +170,8 @@ def cases(ctx):
         ops = []
         for _ in range(int(rng.integers(0, 7)) if rng.random() < 0.8 else 0):
             op = str(rng.choice(['dr', 'dk', 'length']))
+            if rng.random() < 0.1:
+                ops.append(['copy', str(rng.choice(['deepcopy', 'pickle', 'shallow']))])
             ops.append([op, draw_length(rng, hi) if op == 'length' else draw_spacing(rng)])
         yield {'ctor': str(rng.choice(['dr', 'dk'])), 'L': draw_length(rng, hi), 'sp': draw_spacing(rng), 'ops': ops,
                'arr': str(rng.choice(['rand', 'smooth', 'spike'])), 'aseed': int(rng.integers(0, 2 ** 31)),
@@ -196,8 +200,20 @@ def run_case(ctx, case):
         d.MatrixArray_to_real(m0)
         d.to_real(d.to_fourier(np.ones(L0)))
         ctx.hook('used_before_reconfiguration')
+    kept = []
     for op, val in case['ops']:
+        if op == 'copy':
+            # the history continues on a copy of the Domain (a forked System, a pickled job, copy.copy of a template): the
+            # copy is a reachable Domain like any other, and the object it was copied from must stay what it was
+            kept.append((d, val))
+            d = copy.deepcopy(d) if val == 'deepcopy' else (pickle.loads(pickle.dumps(d)) if val == 'pickle' else copy.copy(d))
+            ctx.hook('history_continues_on_a_copy')
+            continue
         setattr(d, op, int(val) if op == 'length' else float(val))
+    for n_, (orig, how) in enumerate(kept):
+        ctx.hook('original_after_copy_checked')
+        for mech, msg in grid_invariant(orig, 'original of a %s copy' % how) + fresh_equal(orig, 'original of a %s copy' % how):
+            ctx.violation(mech + '@original-of-copy', msg + ' (after %r on the copy)' % (case['ops'],))
     L = d.length
     if len(d.r) != L or len(d.k) != L:
         return          # already reported by the hook; transforms are meaningless on a broken grid
